@@ -219,7 +219,7 @@ func (c *Chain) ViewsDid(ctx sdk.Context, vo ViewOpts) []any {
 	out := []any{}
 	for _, d := range vo.Dids {
 		res, err := c.App.DidKeeper.DID(g, &didtypes.QueryDIDRequest{DidBase64: base64.StdEncoding.EncodeToString([]byte(conc(didDict, d)))})
-		e := M{"d": d, "st": errClass(err), "msg": "", "doc": M{"id": "", "vms": []any{}, "auth": []any{}, "asrt": []any{}}, "seq": 0, "named": true}
+		e := M{"d": d, "st": errClass(err), "msg": "", "doc": M{"id": "", "vms": []any{}, "auth": []any{}, "asrt": []any{}, "ex": ""}, "seq": 0, "named": true}
 		if err != nil {
 			if s, ok := status.FromError(err); ok {
 				e["msg"] = s.Message()
